@@ -80,7 +80,7 @@ theorem sq_consts :
     linear_combination this
   refine ⟨?_, ?_, ?_, ?_, ?_, ?_, ?_, ?_, ?_, ?_, ?_⟩ <;>
     simp only [sqOK, matrix, matX, matY, matZ, matH, matS, matSdg, matT, matTdg, matV, matVdg,
-      identity_two, mul_two] <;>
+      identity_two, lmul_two] <;>
     refine mat2_ext ?_ ?_ ?_ ?_ <;> grind
 
 theorem sq_two_qubit :
@@ -100,7 +100,7 @@ include hh hs
 theorem sq_rx (x : V) : sqOK (α := α) (.RX x) (.RX (dbl x)) := by
   have e1 := hh.cos_phalf_twice x; have e2 := hh.sin_phalf_twice x
   simp only [h.cos_padd, h.sin_padd] at e1 e2
-  simp only [sqOK, matrix, matRX, mul_two, hs.cos_phalf_dbl, hs.sin_phalf_dbl]
+  simp only [sqOK, matrix, matRX, lmul_two, hs.cos_phalf_dbl, hs.sin_phalf_dbl]
   rw [← e1, ← e2]
   have h1 := h.I_mul_I
   refine mat2_ext ?_ ?_ ?_ ?_ <;> grind
@@ -108,20 +108,21 @@ theorem sq_rx (x : V) : sqOK (α := α) (.RX x) (.RX (dbl x)) := by
 theorem sq_ry (x : V) : sqOK (α := α) (.RY x) (.RY (dbl x)) := by
   have e1 := hh.cos_phalf_twice x; have e2 := hh.sin_phalf_twice x
   simp only [h.cos_padd, h.sin_padd] at e1 e2
-  simp only [sqOK, matrix, matRY, mul_two, hs.cos_phalf_dbl, hs.sin_phalf_dbl]
+  simp only [sqOK, matrix, matRY, lmul_two, hs.cos_phalf_dbl, hs.sin_phalf_dbl]
   rw [← e1, ← e2]
   refine mat2_ext ?_ ?_ ?_ ?_ <;> grind
 
 theorem sq_rz (x : V) : sqOK (α := α) (.RZ x) (.RZ (dbl x)) := by
   have e1 := hh.cos_phalf_twice x; have e2 := hh.sin_phalf_twice x
   simp only [h.cos_padd, h.sin_padd] at e1 e2
-  simp only [sqOK, matrix, matRZ, mul_two, conj_polar_one h, Amp.polar, hs.cos_phalf_dbl, hs.sin_phalf_dbl]
+  simp only [sqOK, matrix, matRZ, lmul_two, Amp.polar, hs.cos_phalf_dbl, hs.sin_phalf_dbl,
+    h.conj_add, h.conj_mul, h.conj_one, h.conj_cos, h.conj_sin, h.conj_I]
   rw [← e1, ← e2]
   have h1 := h.I_mul_I
   refine mat2_ext ?_ ?_ ?_ ?_ <;> grind
 
 theorem sq_u1 (x : V) : sqOK (α := α) (.U1 x) (.U1 (dbl x)) := by
-  simp only [sqOK, matrix, matU1, mul_two, Amp.polar, hs.cos_dbl, hs.sin_dbl, h.cos_padd, h.sin_padd]
+  simp only [sqOK, matrix, matU1, lmul_two, Amp.polar, hs.cos_dbl, hs.sin_dbl, h.cos_padd, h.sin_padd]
   have h1 := h.I_mul_I
   refine mat2_ext ?_ ?_ ?_ ?_ <;> grind
 
@@ -137,7 +138,7 @@ theorem sq_u2 (p l : V) :
   refine ⟨u2Phase_unit h hh hs p l, ?_⟩
   have e1 := hh.cos_phalf_twice (Amp.padd α p l); have e2 := hh.sin_phalf_twice (Amp.padd α p l)
   simp only [h.cos_padd, h.sin_padd] at e1 e2
-  simp only [matrix, matU2, matU3, mul_two, scale_two, u2Phase, Amp.polar, hs.cos_phalf_u2theta,
+  simp only [matrix, matU2, matU3, lmul_two, scale_two, u2Phase, Amp.polar, hs.cos_phalf_u2theta,
     hs.sin_phalf_u2theta, h.cos_padd, h.sin_padd, hs.cos_subHalfPi, hs.sin_subHalfPi]
   have h1 := h.I_mul_I
   have h2 := h.cos_sq_add_sin_sq (Amp.phalf α (Amp.padd α p l))
